@@ -132,6 +132,11 @@ def main(argv=None):
     # violation_counts may name mechanisms whose records were capped per shard: all carry >=1 record
     rdir = os.path.join(env.OUT, "replays", pid)
     lines = []
+    if os.path.isdir(rdir) and not args.replay:
+        # witnesses of an earlier run with the same tier and seed would be mistaken for this run's
+        for fn in os.listdir(rdir):
+            if fn.startswith("%s-%s-" % (args.tier, seed)):
+                os.remove(os.path.join(rdir, fn))
     if unlisted:
         os.makedirs(rdir, exist_ok=True)
     seen_mech = {}
